@@ -193,6 +193,8 @@ def gen_cli(rng, n, tier):
         ["-a", "Size=%Name()", "-a", "Upper=u", "-ah", "Upper=" + PROBE],
         # aliases that refer to each other against the registration (= alphabetical) order
         ["-a", "Alpha=<%Zulu()>", "-a", "Zulu=const", "-a", "Mid=%Alpha()%Zulu()"],
+        # aliases that shadow a built-in / ad-hoc name and wrap that very tag through its qualified name
+        ["-a", "Name=%Upper(){%Core.Name()}", "-a", "Ext=%Lower(){%core.Ext()}", "-ah", "cut=" + PROBE, "-a", "cut=%AdHoc.cut(){x}"],
     ]
     # names the template language cannot spell must not be accepted (and then listed) as tag names
     odd = [["-a", "Gr\u00f6\u00dfe=x"], ["-ah", "\u0394t=" + PROBE], ["-a", "\u540d\u524d=x", "-a", "Ok=y"]]
